@@ -294,9 +294,21 @@ def hang_analysis(env, text, res, build):
     if hung is None:
         return False
     s, o = hung
-    alone = env.drive("hang-isolated", s.case_text(o.id), build=build, timeout=300)
+    # the smallest history that still contains the call: only the calls that produce a value it refers to
+    import re as _re
+    ops = s.all_ops or s.ops
+    need = set(_re.findall(r"\$([A-Za-z0-9_]+)\.", o.raw))
+    if o.args.get("ctx"):
+        need.add(o.args["ctx"])
+    keep = []
+    for prev in reversed(ops[: ops.index(o)]):
+        if prev.args.get("out") in need:
+            keep.append(prev)
+            need |= set(_re.findall(r"\$([A-Za-z0-9_]+)\.", prev.raw))
+    minimal = "\n".join([s.header] + [x.raw for x in reversed(keep)] + [o.raw]) + "\nE %s\n" % s.sid
+    alone = env.drive("hang-isolated", minimal, build=build, timeout=300)
     if alone.timed_out:
-        env.inconclusive.append("call %s never returns even in a fresh process (not history-dependent; reported as inconclusive here)" % o.raw[:80])
+        env.inconclusive.append("call %s never returns even as the only call of a fresh process (not history-dependent; reported as inconclusive here)" % o.raw[:80])
         return True
     ok = any(x.ret is not None for ss in alone.sessions for x in (ss.all_ops or ss.ops) if x.id == o.id)
     if ok:
